@@ -18,14 +18,21 @@ Inductive op :=
 | OLateral (g1 g2 : taxon)
 | OProfileFull
 | OClustering (p : taxon)
-| OIham (oid : nat).
+| OIham (oid : nat)
+(* calls that keep no state of their own: per-family tree profile, navigation from a HOG, get_at_level *)
+| OProfileHog (oid : nat)
+| ONav (oid : nat)
+| OAtLevel (r : ref) (g : taxon).
 
 Inductive out :=
 | RVertical (r : result (taxon * taxon * hmap))
 | RLateral (r : taxon * list (taxon * hmap))
 | RProfile (r : result (list pnode))
 | RClustering (r : list (ref * list string))
-| RIham (r : option (list item)).
+| RIham (r : option (list item))
+| RProfileHog (r : option (option (list hnode)))
+| RNav (r : option (list ref * list (taxon * list string) * list ref * list taxon))
+| RAtLevel (r : result (list ref)).
 
 Definition pair_eqb (x y : taxon * taxon) : bool := taxon_eqb (fst x) (fst y) && taxon_eqb (snd x) (snd y).
 
@@ -116,6 +123,10 @@ Definition sstep (t : stree) (fo : forest) (s : sstate) (o : op) : sstate * out 
           | None => (s, RIham None)
           end
       end
+  | OProfileHog oid => (s, RProfileHog (option_map (profile_hog t) (find_hog fo oid)))
+  | ONav oid =>
+      (s, RNav (option_map (fun h => (desc_genes h, genes_by_species h, desc_hogs h, desc_levels h)) (find_hog fo oid)))
+  | OAtLevel r g => (s, RAtLevel (get_at_level fo r g))
   end.
 
 Definition srun (t : stree) (fo : forest) (ops : list op) (s : sstate) : sstate :=
